@@ -528,6 +528,11 @@ class Canon:
                 e0 = _strip(tail)
                 c0 = _callee(e0)
                 f0 = self.inlinable(c0, allow_ret=True) if c0 else None
+                if f0 is None and c0:
+                    f1 = self.inlinable(c0, allow_ret=True, allow_try=True)
+                    if f1 is not None and self._err_type(f1.get("output")) is not None and self._err_type(f1.get("output")) == self._err_type(owner.get("output")) and \
+                            str(f1.get("output")) == str(owner.get("output")):
+                        f0 = f1            # the helper returns the caller's own Result: its `?` and `return` are the caller's
                 if f0 is not None:
                     call, f = e0, f0
             if f is not None and _strip(tail) is tail:
@@ -1480,11 +1485,11 @@ class Canon:
                 pat = st.get("pat", {}) if st.get("k") == "Let" else {}
                 init = _strip(st["init"]) if st.get("k") == "Let" and st.get("init") is not None else None
                 if pat.get("k") == "Tuple" and init is not None and init.get("k") == "Tup" and len(init.get("es", [])) == len(pat.get("ps", [])) and \
-                        all(q.get("k") in ("Bind", "Wild") and not q.get("byref") for q in pat["ps"]):
+                        all(not q.get("byref") for q in pat["ps"]):
                     sp = st.get("sp") or [0, 0, 0, 0]
                     for k_, (q, e_) in enumerate(zip(pat["ps"], init["es"])):
                         lsp = [sp[0], sp[1] + 0.0001 * k_, sp[2] if len(sp) > 2 else sp[0], sp[3] if len(sp) > 3 else sp[1]]
-                        if q.get("k") == "Bind":
+                        if q.get("k") != "Wild":
                             out.append({"k": "Let", "pat": q, "init": e_, "sp": lsp, "canon": "tuple-let"})
                         else:
                             out.append({"k": "Semi", "e": e_, "sp": lsp})
@@ -2123,10 +2128,12 @@ class Canon:
             if lo_extra is not None or take is not None or enum:
                 return
             c_, _m, lo_n, hi_n, incl_n = srcs[0]
-            if incl_n:
+            if incl_n and hi_n is None:
                 return
             lo_extra = lo_n
             hi = copy.deepcopy(hi_n) if hi_n is not None else length(c_)
+            if incl_n:
+                hi = usz({"k": "Binary", "op": "+", "l": hi, "r": usz({"k": "Lit", "v": "1"})})      # X[a..=b] is X[a..b+1]
         elif any(len(s_) > 2 for s_ in srcs):
             # zipped with a sub-slice: the index runs from 0 and addresses X[a + i]; the sub-slice has b - a elements
             if lo_extra is not None or take is not None or enum or rev:
